@@ -110,6 +110,12 @@ def run_one(seed, index, tier):
         oracle={k: _ORACLE.stats[k] - q0[k] for k in ('pristine', 'memo_hits', 'timeouts', 'errors')},
         violations=res['violations'],
         dims=sorted({_dim(a) for a in tr['world']['algebras']}),
+        opmix=_opmix(tr),
+        arms=[k for k in ('twins', 'instr', 'instr_poly', 'warn_as_error') if tr['world'].get(k)] +
+             (['mirror'] if _is_mirror(tr) else []) + (['graded'] if any(a.get('graded') for a in tr['world']['algebras']) else []) +
+             (['cse_off'] if any(a.get('cse') is False for a in tr['world']['algebras']) else []) +
+             (['sympy_symbolcls'] if any(a.get('symbolcls') for a in tr['world']['algebras']) else []) +
+             (['named_basis'] if any(a.get('name') for a in tr['world']['algebras']) else []),
     )
     if res['violations']:
         tr2 = copy.deepcopy(tr)
@@ -119,6 +125,29 @@ def run_one(seed, index, tier):
     if 0 <= index < 3:
         s['sample'] = sample_of(tr, res)
     return s
+
+
+def _opmix(tr):
+    m = {}
+    for prog in tr['callers']:
+        for op in prog:
+            k = f"{op['kind']}:{op.get('op') or op.get('fn') or ''}"
+            m[k] = m.get(k, 0) + 1
+            for a in op.get('args', []):
+                kk = 'operand:' + a.get('k', '?')
+                m[kk] = m.get(kk, 0) + 1
+    return m
+
+
+def _is_mirror(tr):
+    algs = {op['alg'] for prog in tr['callers'] for op in prog}
+    if len(algs) < 2 or not tr['callers']:
+        return False
+    prog = tr['callers'][0]
+    h = len(prog) // 2
+    strip = lambda o: {k: v for k, v in o.items() if k != 'alg'}
+    return len(prog) >= 2 and len(prog) % 2 == 0 and [strip(o) for o in prog[:h]] == [strip(o) for o in prog[h:]] \
+        and prog[0]['alg'] != prog[h]['alg']
 
 
 def hash_trace(tr):
@@ -145,6 +174,7 @@ def aggregate(summaries, tier):
     steps = switches = ops = storage = dirty = 0
     oracle = dict(pristine=0, memo_hits=0, timeouts=0, errors=0)
     pol, dims, callers = {}, {}, {}
+    opmix, arms = {}, {}
     samples = []
     wrapper_runs = 0
     for s in summaries:
@@ -168,6 +198,10 @@ def aggregate(summaries, tier):
         wrapper_runs += bool(s['wrapper'])
         for d in s['dims']:
             dims[str(d)] = dims.get(str(d), 0) + 1
+        for k, v in s.get('opmix', {}).items():
+            opmix[k] = opmix.get(k, 0) + v
+        for k in s.get('arms', []):
+            arms[k] = arms.get(k, 0) + 1
         if 'sample' in s:
             samples.append(s['sample'])
     return dict(
@@ -184,6 +218,8 @@ def aggregate(summaries, tier):
         probes=probes, distinct_interleavings=len(inter), distinct_cache_states=len(states),
         storage_only_differences=storage, oracle_queries=oracle,
         runs_by_policy=pol, runs_by_dimension=dims, runs_by_callers=callers, runs_with_wrapper=wrapper_runs,
+        runs_by_arm=arms, operations_by_kind=dict(sorted(opmix.items())),
+        seed_formula='run seed = VERIF_SEED * 1000003 + run index; scheduler seed drawn from the run PRNG',
         instrumented_code_objects=max([s.get('ncodes') or 0 for s in summaries] or [0]),
         components=dict(
             real=['kingdon.* from /repo working tree (unmodified, no hooks)', 'sympy', 'numpy', 'caller threads (real '
